@@ -253,6 +253,16 @@ def texts_for(ctx):
     for i, t in enumerate(prose):
         out.append((("prose", i, None), t, None))
     docs = C.valid_documents(ctx.rng, "quick")
+    # header damage: each of the first 14 lines of one written document per format deleted in turn (texts that look
+    # like a format except for one record are the ones that reach a parser's internals)
+    seen_fmt = set()
+    for fmt, name, text in docs:
+        if fmt in seen_fmt or not name.startswith("written"):
+            continue
+        seen_fmt.add(fmt)
+        lines = text.split("\n")
+        for i in range(min(14, len(lines))):
+            out.append((("header-line-deleted", i, fmt), "\n".join(lines[:i] + lines[i + 1:]), None))
     n_soup = 25 if quick else 400
     for i in range(n_soup):
         fmt, name, text = docs[rng.randrange(len(docs))]
